@@ -10,4 +10,8 @@ UNITS = [
     ("contracts.conductor_eta", "EvaluateTaskActions"),
     ("contracts.conductor_eta", "EvaluateTaskRetry"),
     ("contracts.conductor_uts", "UpdateTaskState"),
+    ("contracts.conductor_misc", "InboundCriteria"),
+    ("contracts.conductor_misc", "MakeTaskResult"),
+    ("contracts.conductor_misc", "SetupRetry"),
+    ("contracts.conductor_misc", "RequestWorkflowStatus"),
 ]
